@@ -2,7 +2,7 @@
 
 KINDS = ['pass', 'fail_output', 'fail_exc', 'all_skipped', 'partly_skipped', 'expected_exc', 'disabled', 'comment_only',
          'note_then_skip', 'skip_then_note', 'fail_directive_first', 'fail_compile_first', 'late_disable_word', 'warn_then_fail', 'warn_then_pass', 'requires_unmet_block',
-         'comment_bare_prompt', 'comment_bare_prompt_prose', 'binds_then_fails', 'reads_leaked_name']
+         'comment_bare_prompt', 'comment_bare_prompt_prose', 'binds_then_fails', 'reads_leaked_name', 'promptless_google_block']
 # kinds used by the native-runner checks only (under pytest a first line '# pytest.skip' is a force-disable word)
 NATIVE_ONLY_KINDS = ['pytest_skip_comment']
 # kinds whose verdict is not fixed by construction but must be the SAME in both front ends: a doctest that needs a module which is
@@ -59,6 +59,9 @@ def doc_lines(kind, n):
     if kind == 'pytest_skip_comment':
         # for the native runner this first line is an ordinary comment: the doctest runs (and fails by output)
         return ['>>> # pytest.skip is honoured by the pytest plugin only %d' % n, ">>> print('k%d')" % n, 'WRONG%d' % n]
+    if kind == 'promptless_google_block':
+        # a google block that holds no prompt (a shell command) and prompts elsewhere in the docstring: ONE doctest under this name
+        return ['Mixed %d.' % n, '', 'Example:', '    $ python -m tool run %d' % n, '', 'In code this reads', '', ">>> print('g%d')" % n, 'g%d' % n]
     if kind == 'binds_then_fails':
         # binds a name, then fails: the name dies with this doctest's namespace
         return ['>>> leaked_name = %d' % (n + 1), ">>> print('a%d')" % n, 'b%d' % n]
@@ -79,7 +82,7 @@ def doc_lines(kind, n):
 # verdict when the doctest is run
 VERDICT = {'pass': 'passed', 'fail_output': 'failed', 'fail_exc': 'failed', 'all_skipped': 'skipped',
            'partly_skipped': 'passed', 'expected_exc': 'passed', 'disabled': 'failed', 'comment_only': 'skipped',
-           'note_then_skip': 'skipped', 'skip_then_note': 'skipped', 'fail_directive_first': 'failed', 'fail_compile_first': 'failed', 'late_disable_word': 'passed', 'warn_then_fail': 'failed', 'warn_then_pass': 'passed', 'pytest_skip_comment': 'failed', 'requires_unmet_block': 'skipped', 'binds_then_fails': 'failed', 'reads_leaked_name': 'failed', 'comment_bare_prompt': 'skipped', 'comment_bare_prompt_prose': 'skipped', 'chdir_then_pass': 'passed', 'chdir_then_fail': 'failed'}
+           'note_then_skip': 'skipped', 'skip_then_note': 'skipped', 'fail_directive_first': 'failed', 'fail_compile_first': 'failed', 'late_disable_word': 'passed', 'warn_then_fail': 'failed', 'warn_then_pass': 'passed', 'pytest_skip_comment': 'failed', 'requires_unmet_block': 'skipped', 'binds_then_fails': 'failed', 'reads_leaked_name': 'failed', 'promptless_google_block': 'skipped', 'comment_bare_prompt': 'skipped', 'comment_bare_prompt_prose': 'skipped', 'chdir_then_pass': 'passed', 'chdir_then_fail': 'failed'}
 
 
 def module_source(kinds, layout='functions'):
@@ -102,7 +105,7 @@ def module_source(kinds, layout='functions'):
             src += ['        """', '']
             ids.append(('%s.%s:0' % (cname, mname), '%s.%s' % (cname, mname), kind))
             i += 1
-        elif layout == 'mixed' and i % 3 == 2 and i + 1 < n:
+        elif layout == 'mixed' and i % 3 == 2 and i + 1 < n and 'promptless_google_block' not in (kind, kinds[i + 1]):
             src += ['def g%d():' % i, '    r"""', '    Example:']
             src += ['        ' + l for l in doc_lines(kind, i)]
             src += ['', '    Example:']
